@@ -1,6 +1,8 @@
 package rules
 
 import (
+	"go/token"
+	"go/constant"
 	"fmt"
 	"go/types"
 
@@ -311,6 +313,17 @@ func (t *transport) checkSection(fn *ssa.Function, protoRule, closeRule string) 
 					refuted = true
 				}
 			}
+			// the value compared with CloseMessage is known to be another constant on this path (the comparison
+			// itself was folded and left no literal): a parameter that the function compares with CloseMessage
+			for _, l := range p.Lits {
+				if !l.Pos || l.T.Kind != core.KEq || l.T.Args[0].Kind != core.KParam {
+					continue
+				}
+				prm, _ := l.T.Args[0].Ref.(*ssa.Parameter)
+				if v, isK := l.T.Args[1].Int64(); isK && v != t.closeMsg && prm != nil && comparedWithConst(prm, t.closeMsg) {
+					refuted = true
+				}
+			}
 			if !recorded && !refuted {
 				closeRec = verdict{false, "path with a successful transport write at " + c.P.Pos(ev.Instr.Pos()) + " releases Conn.mu without setting writeErr and without excluding that the frame is a close frame"}
 			}
@@ -337,4 +350,22 @@ func (t *transport) writeSucceeded(p *core.Path, ev *core.Event) bool {
 			return y == res || (y.Kind == core.KExtract && y.Args[0] == res)
 		})
 	})
+}
+
+// comparedWithConst: the parameter is compared (==, !=, switch) with the constant k somewhere in its function.
+func comparedWithConst(prm *ssa.Parameter, k int64) bool {
+	for _, ref := range *prm.Referrers() {
+		b, ok := ref.(*ssa.BinOp)
+		if !ok || (b.Op != token.EQL && b.Op != token.NEQ) {
+			continue
+		}
+		for _, side := range []ssa.Value{b.X, b.Y} {
+			if c, isC := side.(*ssa.Const); isC && c.Value != nil && c.Value.Kind() == constant.Int {
+				if v, exact := constant.Int64Val(c.Value); exact && v == k {
+					return true
+				}
+			}
+		}
+	}
+	return false
 }
